@@ -42,10 +42,11 @@ type obsRec struct {
 }
 
 type Exec struct {
-	eng *Engine
-	ts  *TermStore
-	sol *Solver
-	id  int
+	eng        *Engine
+	ts         *TermStore
+	sol        *Solver
+	sol2, sol3 *Solver
+	id         int
 
 	// per path
 	pc            []*Term
@@ -152,7 +153,46 @@ func (ex *Exec) feasibleSMT(c *Term) Verdict {
 	rel := ex.sliceFor(c)
 	rel = append(rel, c)
 	ex.assertQueries++
-	return ex.sol.Check(rel)
+	v := ex.sol.Check(rel)
+	if ex.eng.crossCheck {
+		ex.crossCheck(rel, v)
+	}
+	return v
+}
+
+// crossCheck repeats an assertion query with other solvers (thorough tier): every
+// query with z3 5.x, every 25th with cvc5. A disagreement makes the run unusable.
+func (ex *Exec) crossCheck(cs []*Term, v Verdict) {
+	if v == Unknown {
+		return
+	}
+	if ex.sol2 == nil {
+		ex.sol2 = NewSolver("z3-new", ex.ts, ex.eng.solverTimeoutMs, ex.eng.seed)
+	}
+	ex.eng.smu.Lock()
+	ex.eng.crossQueries++
+	n := ex.eng.crossQueries
+	ex.eng.smu.Unlock()
+	if v2 := ex.sol2.Check(cs); v2 != Unknown && v2 != v {
+		ex.eng.noteDisagreement(fmt.Sprintf("z3 %s vs z3-new %s", v, v2))
+	}
+	if n%25 == 0 {
+		if ex.sol3 == nil {
+			ex.sol3 = NewSolver("cvc5", ex.ts, ex.eng.solverTimeoutMs, ex.eng.seed)
+		}
+		ex.eng.smu.Lock()
+		ex.eng.crossCVC5++
+		ex.eng.smu.Unlock()
+		if v3 := ex.sol3.Check(cs); v3 != Unknown && v3 != v {
+			ex.eng.noteDisagreement(fmt.Sprintf("z3 %s vs cvc5 %s", v, v3))
+		}
+	}
+}
+
+func (e *Engine) noteDisagreement(msg string) {
+	e.smu.Lock()
+	e.disagreements = append(e.disagreements, msg)
+	e.smu.Unlock()
 }
 
 // feasibleModel also returns a model of the relevant slice when satisfiable.
@@ -992,6 +1032,7 @@ func (e *Engine) newExec(id int) *Exec {
 func (ex *Exec) recycle() {
 	ex.flushStats()
 	ex.sol.Close()
+	ex.closeCross()
 	ex.ts = NewTermStore()
 	ex.sol = NewSolver(ex.eng.solverKind, ex.ts, ex.eng.solverTimeoutMs, ex.eng.seed)
 }
@@ -1013,4 +1054,16 @@ func (ex *Exec) flushStats() {
 func (ex *Exec) close() {
 	ex.flushStats()
 	ex.sol.Close()
+	ex.closeCross()
+}
+
+func (ex *Exec) closeCross() {
+	if ex.sol2 != nil {
+		ex.sol2.Close()
+		ex.sol2 = nil
+	}
+	if ex.sol3 != nil {
+		ex.sol3.Close()
+		ex.sol3 = nil
+	}
 }
